@@ -1,5 +1,6 @@
 """C19 - chain tracing partitions particles into simple, distance-respecting chains."""
 import math
+import os
 
 import numpy as np
 from hypothesis import strategies as st
@@ -317,7 +318,7 @@ def run(case):
         out.label("store:" + "+".join(store))
     out.label(f"family:{case['family']}", f"tomograms:{len(np.unique(tomo))}", *(f"branch:{b}" for b in branches))
     out.nontrivial = any(b in ("suffix_accepted", "prefix_performed", "prefix_performed_both_sides") for b in branches)
-    if out.violations or lattice:
+    if out.violations or lattice or case.get("single_call"):
         return out
     # the same entry sites with other exit sites, in the same process: the second answer must follow the second input
     rng = np.random.default_rng(case["ids_seed"] + 17)
@@ -327,3 +328,27 @@ def run(case):
         trace_and_validate(out, E, X2, tomo, ids, dmax, dmin, tag="second_call_same_entries:", store=store)
         out.label("second_call")
     return out
+
+
+def extra_campaign(tier, seed, stats, known_open):
+    """Coverage-guided atheris campaign (cryocat.ribana instrumented) over explicit configurations on a 1/64 grid; the
+    saved branch-reaching inputs, re-encoded, are the seed corpus.  Results are merged into the run's statistics."""
+    import importlib.util
+
+    from vlib import fuzzrun
+
+    seeds = []
+    try:
+        enc_path = os.path.join(os.path.dirname(os.path.dirname(os.path.abspath(__file__))), "fuzz", "c19_seed_encoder.py")
+        spec = importlib.util.spec_from_file_location("c19_seed_encoder", enc_path)
+        mod = importlib.util.module_from_spec(spec)
+        spec.loader.exec_module(mod)
+        for c in _corpus() + [c for c in corner_cases(tier) if len(c["entry"]) <= 24]:
+            if len(c["entry"]) <= 24:
+                seeds.append(mod.encode(c, STORES))
+    except (OSError, ImportError):
+        seeds = []
+    if tier == "quick":  # ~25 executions per second and process: too few in the quick budget to be worth the start-up
+        return {"fuzz_campaign": "thorough tier only"}
+    return fuzzrun.campaign("c19_chain_fuzz.py", "atheris/libFuzzer on cryocat.ribana (explicit entry/exit configurations)", seeds, stats, known_open,
+                            runs=20000, seconds=300, seed=seed, max_len=400, parallel=int(os.environ.get("VERIF_JOBS", "16")))
